@@ -379,6 +379,8 @@ def main() -> int:
             )
             elements = args.filter_elements or laser.elements
             for element in elements:
+                if element not in laser.elements:  # requested for another input
+                    continue
                 laser.data[element] = func(
                     laser.data[element], args.filter_size, args.filter_threshold
                 )
